@@ -250,18 +250,18 @@ def run(c):
                 c.finding_or_violation({"kind": "state-after-history", "path": p, "expected": st.get(p, "absent"), "observed": k},
                                        {"ops": case["ops"]})
     # ---- long histories of large batches (descriptor lifetime in init across garbage collections)
-    rounds = 150 if c.quick() else 1500
-    so = c.run_harness(exe, [{"id": 0, "ops": [{"op": "reset"}, {"op": "openstress", "rounds": rounds, "n": 250}, {"op": "reset"}, {"op": "ping"}]}],
+    rounds = 500 if c.quick() else 3000
+    so = c.run_harness(exe, [{"id": 0, "ops": [{"op": "reset"}, {"op": "openstress", "rounds": rounds, "n": 320}, {"op": "reset"}, {"op": "ping"}]}],
                        env=env, timeout=1800)[0]["obs"]
     if so[1].get("hang"):
-        c.finding_or_violation({"kind": "open-batch-history", "what": "a batch never returned"}, {"history": "%d rounds of 250-item create + read-back batches on one environment" % rounds})
+        c.finding_or_violation({"kind": "open-batch-history", "what": "a batch never returned"}, {"history": "%d rounds of 320-item create + read-back batches on one environment" % rounds})
         so[1].update({"rounds_done": 0, "fail": "hang"})
         so += [{"err": "hang"}] * 3
     c.cov["stress_rounds"] = so[1]["rounds_done"]
     c.evaluations += so[1]["rounds_done"]
     if so[1]["fail"] or so[3]["err"]:
         c.finding_or_violation({"kind": "open-batch-history", "what": so[1]["fail"] or so[3]["err"]},
-                               {"history": "%d rounds of 250-item create + read-back batches on one environment" % rounds})
+                               {"history": "%d rounds of 320-item create + read-back batches on one environment" % rounds})
     c.sample({"state": metas[0]["before"], "batch": metas[0]["items"], "observed": obs[0]["obs"][2].get("results")})
     body = HDR + "Definition cs := %s.\nDefinition M := Eval vm_compute in failing batch_ok cs.\nPrint M.\n" % coq_list(coq_items)
     for i in c.parse_nums(c.parse_printed(c.coq_eval("batch", body), "M").replace("%N", "")):
